@@ -34,6 +34,10 @@ pub enum VD {
     /// no node at all: `on_cleanup(move || sig.set(val))` registered in the scope the view is built in (generated at
     /// the top level only, so it runs when the render scope / the root is torn down — never while the case observes)
     OnCleanup(usize, u32),
+    /// no node at all: `sig.set(val)` executed WHILE the view is being built (a component further down publishing
+    /// state that something further up displays). Generated at the top level only, and only for signals that are
+    /// displayed by dynamic texts and attributes (which are patched in place, on the server too)
+    SetNow(usize, u32),
 }
 
 pub const KEYED_LISTS: &[&[u32]] = &[&[], &[1], &[1, 2], &[2, 1], &[1, 2, 3], &[3, 1]];
@@ -43,6 +47,13 @@ pub fn keyed_list(v: u32) -> Vec<u32> {
 
 pub fn dtext_str(v: u32) -> String {
     if v % 4 == 0 { String::new() } else { v.to_string() }
+}
+
+/// the store once the view has been built: top-level `setnow` writes applied in document order
+pub fn store_after_build(vds: &[VD], store: &[u32]) -> Vec<u32> {
+    let mut s = store.to_vec();
+    for v in vds { if let VD::SetNow(g, x) = v { if *g < s.len() { s[*g] = *x; } } }
+    s
 }
 
 pub fn leak(s: &str) -> &'static str {
@@ -68,6 +79,7 @@ pub fn sx(v: &VD) -> String {
         VD::Keyed(g) => format!("(keyed {g})"),
         VD::NoSsr(cs) => format!("(nossr{})", l(cs)),
         VD::OnCleanup(g, v) => format!("(oncleanup {g} {v})"),
+        VD::SetNow(g, v) => format!("(setnow {g} {v})"),
     }
 }
 
@@ -114,6 +126,7 @@ pub fn rd(s: &Sx) -> Option<VD> {
         "frag" => VD::Frag(l[1..].iter().map(rd).collect::<Option<_>>()?),
         "keyed" => VD::Keyed(num(&l[1])?),
         "oncleanup" => VD::OnCleanup(num(&l[1])?, num(&l[2])? as u32),
+        "setnow" => VD::SetNow(num(&l[1])?, num(&l[2])? as u32),
         "nossr" => VD::NoSsr(l[1..].iter().map(rd).collect::<Option<_>>()?),
         "nohydrate" => VD::NoHydrate(l[1..].iter().map(rd).collect::<Option<_>>()?),
         _ => return None,
@@ -174,6 +187,10 @@ pub fn build(v: &VD, sigs: &[Signal<u32>]) -> View {
             on_cleanup(move || s.set(v));
             View::new()
         }
+        VD::SetNow(g, v) => {
+            sigs[*g].set(*v);
+            View::new()
+        }
         VD::NoSsr(cs) => {
             let (cs, sigs) = (cs.clone(), sigs.to_vec());
             view! { NoSsr(children=Children::new(move || View::from(cs.iter().map(|c| build(c, &sigs)).collect::<Vec<View>>()))) }
@@ -210,7 +227,7 @@ pub fn freeze(v: &VD, store: &[u32]) -> VD {
         VD::DView(g, alts) | VD::DView0(g, alts) => if alts.is_empty() { VD::Frag(vec![]) } else { VD::Frag(fl(&alts[store[*g] as usize % alts.len()])) },
         VD::Show(g, cs) => if store[*g] % 2 == 1 { VD::Frag(fl(cs)) } else { VD::Frag(vec![]) },
         VD::Frag(cs) | VD::NoHydrate(cs) | VD::NoSsr(cs) => VD::Frag(fl(cs)),
-        VD::OnCleanup(..) => VD::Frag(vec![]),
+        VD::OnCleanup(..) | VD::SetNow(..) => VD::Frag(vec![]),
         VD::Keyed(g) => VD::Frag(keyed_list(store[*g]).iter().map(|k| VD::El("li".into(), vec![], vec![VD::Text(format!("k{k}"))])).collect()),
     }
 }
@@ -225,6 +242,8 @@ pub fn after_hydration(v: &VD, store0: &[u32]) -> VD {
         VD::Frag(cs) => VD::Frag(al(cs)),
         VD::NoSsr(cs) => VD::NoSsr(al(cs)),
         VD::NoHydrate(cs) => VD::Frag(cs.iter().map(|c| freeze(c, store0)).collect()),
+        // the write happened while the view was built; the view that the document behaves like does not repeat it
+        VD::SetNow(..) => VD::Frag(vec![]),
         other => other.clone(),
     }
 }
